@@ -137,7 +137,7 @@ def gen_program(rng, int_only=False):
     if defint:
         L.append('DEFINT I-K')
     gc, gd = v(2, 90), rng.choice(['2.5', '.25', '7.75'])
-    L += [f'CONST gc% = {gc}', 'CONST gs$ = "cs"', f'CONST gd# = {gd}',
+    L += [f'CONST gc% = {gc}', 'CONST gs$ = "cs"', f'CONST gd# = {gd}', f'CONST dup% = {v(100, 199)}', 'CONST dups$ = "outer"',
           'TYPE pt', '  x AS INTEGER', '  y AS LONG', 'END TYPE',
           'TYPE sgm', '  a AS pt', '  w AS SINGLE', '  b AS pt', 'END TYPE']
     slo = v(0, 2)
@@ -155,7 +155,7 @@ def gen_program(rng, int_only=False):
                   ('garr%(0)', 'i'), ('g2d&(2, 1)', 'l'), ('g2d&(1, 0)', 'l'), ('gseg.a.x', 'i'), ('gseg.a.y', 'l'), ('gseg.w', 's'),
                   ('gseg.b.y', 'l'), ('gpts(1).x', 'i'), ('gpts(2).y', 'l'), ('plain', 'l'), ('sh', 'l'), (f'sarr({slo})', 'i'),
                   (f'sarr({shi})', 'i'), ('spt.x', 'i'), ('spt.y', 'l'), ('gc%', 'i'), ('gs$', 't'), ('gd#', 's'),
-                  ('garr%(g2d&(1, 0) MOD 2)', 'i'), ('g3! * gd#', 's'), ('gd# / 3', 's'), ('gc% * 1000', 'i')]
+                  ('dup%', 'i'), ('dups$', 't'), ('garr%(g2d&(1, 0) MOD 2)', 'i'), ('g3! * gd#', 's'), ('gd# / 3', 's'), ('gc% * 1000', 'i')]
     if defint:
         L.append(f'i = {v(1, 50)}')
         main_atoms.append(('i', 'i'))
@@ -179,11 +179,13 @@ def gen_program(rng, int_only=False):
     probe(main_atoms + [('r#', 'd')])
     L.append('END')
     L.append(f'SUB p (a%, b&, c$, arr%(), pts() AS pt){static_kw}')
-    L += ['  DIM l1 AS LONG, larr#(2), lpt AS pt', '  STATIC st%', f'  CONST lc% = {v(2, 9)}',
+    L += ['  DIM l1 AS LONG, larr#(2), lpt AS pt', '  STATIC st%', f'  CONST lc% = {v(2, 9)}', f'  CONST dup% = {v(200, 299)}',
+          '  CONST dups$ = "inner"',
           f'  l1 = {v(100000, 200000)}: larr#(1) = 6.5: larr#(2) = {v(1, 9)}: lpt.x = {v(1, 9)}: lpt.y = {v(1, 99999)}: st% = st% + {v(1, 5)}']
     sub_atoms = [('a%', 'i'), ('b&', 'l'), ('c$', 't'), ('arr%(1)', 'i'), (f'arr%({n1})', 'i'), ('pts(1).x', 'i'), ('pts(2).y', 'l'),
                  ('l1', 'l'), ('larr#(1)', 'd'), ('larr#(2)', 'd'), ('lpt.x', 'i'), ('lpt.y', 'l'), ('st%', 'i'), ('lc%', 'i'),
-                 ('gc%', 'i'), ('gs$', 't'), ('gd#', 's'), ('sh', 'l'), (f'sarr({slo})', 'i'), ('spt.y', 'l'), ('arr%(lpt.x MOD 2)', 'i')]
+                 ('gc%', 'i'), ('gs$', 't'), ('gd#', 's'), ('sh', 'l'), (f'sarr({slo})', 'i'), ('spt.y', 'l'), ('arr%(lpt.x MOD 2)', 'i'),
+                 ('dup%', 'i'), ('dups$', 't')]
     if defint:
         L.append(f'  k = {v(1, 9)}')
         sub_atoms.append(('k', 'i'))
@@ -197,7 +199,7 @@ def gen_program(rng, int_only=False):
     L.append('END SUB')
     L.append('FUNCTION f# (x#)')
     L += ['  DIM t AS DOUBLE', '  t = x# * 2']
-    fn_atoms = [('x#', 'd'), ('t', 'd'), ('gc%', 'i'), ('gd#', 's'), ('sh', 'l'), ('spt.x', 'i')]
+    fn_atoms = [('x#', 'd'), ('t', 'd'), ('gc%', 'i'), ('gd#', 's'), ('sh', 'l'), ('spt.x', 'i'), ('dup%', 'i'), ('dups$', 't')]
     for _ in range(v(1, 2)):
         probe(fn_atoms, '  ')
     L += ['  f# = t + 1', 'END FUNCTION']
